@@ -29,9 +29,7 @@ func points(v variant, thorough bool) []int {
 			ks = append(ks, k)
 		}
 	} else {
-		for k := v.maxSteps - 2; k <= v.maxSteps; k++ {
-			ks = append(ks, k)
-		}
+		ks = append(ks, v.suitePoints...)
 	}
 	return append(ks, pointEst)
 }
